@@ -235,7 +235,11 @@ def percolate_space(
 
     percolated = Percolation.percolate_subspace(network, space)
     result: BooleanSpace = {}
-    for var, value in percolated.items():
+    # The iteration order of the dictionary returned by AEON is not stable
+    # (not even within one process). The order of this dictionary influences
+    # the order in which Petri nets and logic programs are built later, so it
+    # has to be fixed here to keep all results reproducible.
+    for var, value in sorted(percolated.items(), key=lambda x: int(x[0])):
         var_name = network.get_network_variable_name(var)
         result[var_name] = cast(Literal[0, 1], int(value))
     return result
